@@ -800,7 +800,9 @@ impl OptimizedSearch for u8 {
 
             // Compare all keys at once
             let cmp = _mm_cmpeq_epi8(search_vec, keys_vec);
-            let mask = _mm_movemask_epi8(cmp) as u32;
+            // only the first `len` lanes hold keys: the zero padding of key_bytes and the zeroed upper
+            // half of the register compare equal to key 0 and must not be reported as matches
+            let mask = (_mm_movemask_epi8(cmp) as u32) & ((1u32 << len.min(8)) - 1);
 
             if mask != 0 {
                 // Found a match, find the first set bit
